@@ -10,6 +10,8 @@ Harper's char-indexed tokens, with the third-party outputs as universally quanti
   invariant (sorted, disjoint, in bounds);
 * `maskParse_inbounds_sorted`, `maskParse_faithful`   `parsers::Mask::parse`;
 * `withoutInitiators_wf`, `unitParse_faithful`        comment leaders, per-line offsets;
+* `unitParse_exact`, `unitParse_tokens_iff`, `unitParse_fenced_lines_silent`, `unit_closing_fence_parsed`,
+  `unitParse_no_fence_complete`   `Unit::parse` and code fences: which lines reach the inner parser;
 * `parseInlineTag_terminates`, `markInlineTags_terminates`   the JSDoc inline-tag scanner;
 * `javadocMark_spec`, `javadocMark_last_window`       the JavaDoc `@tag argument` loop;
 * `lhsMask_safe`, `lhsMask_classifies`                the Literate Haskell masker;
@@ -1210,5 +1212,208 @@ example : mdAdvance sampleGroups.flatten ⟨1, 1⟩ 7 = .ok ⟨3, 7⟩ :=
   markdownOffsets_exact sampleGroups sampleGroups_wf 1 3 (by decide)
 example : mdAdvance sampleGroups.flatten ⟨3, 7⟩ 1 = .ok ⟨3, 7⟩ :=
   markdownOffsets_exact sampleGroups sampleGroups_wf 3 1 (by decide)
+
+/-! ## (c′) `Unit::parse` and code fences: which lines reach the inner parser -/
+
+/-- **Exact output of `Unit::parse`** (`harper-comments/src/comment_parsers/unit.rs`). It never
+panics, and its token list is the concatenation, over the lines of the comment IN ORDER, of
+
+* nothing at all (no inner tokens, no `Newline` token) for a line whose `in_code_fence` flag is
+  `true` after the toggle (`fenceStates`: the flag starts `false` and is flipped by every line for
+  which the model's own `lineIsCodeFence` says `true`), and
+* `unitLineToks` for a line whose flag is `false`: the inner parser's tokens on the stripped line
+  pushed by the leader, then the `Newline(1)` token if the line is not the last, all pushed by the
+  offset of the line. -/
+theorem unitParse_exact (isWs : Char → Bool) (src : List Char) (inner : List Char → List Tok) :
+    unitParse isWs src inner =
+      .ok (unitOut isWs src.length inner 0 (splitNl src) (fenceStates isWs false (splitNl src))) :=
+  unitLoop_eq isWs src.length inner (splitNl src) 0 false
+
+/-- the flag after line `j` of `Unit::parse`: `true` iff the number of fence lines among lines
+`0..=j` is odd — i.e. `j` is an opening fence line or lies strictly between an opening fence and
+the next fence line (the closing one has an even count: flag `false`) -/
+theorem unitParse_fence_state (isWs : Char → Bool) (src : List Char) (j : Nat)
+    (hj : j < (splitNl src).length) :
+    (fenceStates isWs false (splitNl src))[j]? =
+      some ((((splitNl src).take (j + 1)).countP (isFenceLine isWs)) % 2 == 1) := by
+  rw [fenceStates_getElem? isWs _ false j hj]; simp
+
+/-- **Which tokens `Unit::parse` returns, exactly** (both directions): `tok` is in the output iff
+there is a line `j` whose flag is `false` (an UNFENCED line) such that `tok` is the `Newline(1)`
+token at the end of that line (only if the line is not the last of the comment), or `tok` is an
+inner-parser token `t` of the stripped line `j` (non-blank after stripping), moved to the true offset
+`Σ_{j'<j}(len_j'+1) + leader_j`. -/
+theorem unitParse_tokens_iff (isWs : Char → Bool) (src : List Char) (inner : List Char → List Tok)
+    (toks : List Tok) (h : unitParse isWs src inner = .ok toks) (tok : Tok) :
+    tok ∈ toks ↔ ∃ j line, (splitNl src)[j]? = some line ∧
+      (fenceStates isWs false (splitNl src))[j]? = some false ∧
+      ((lineStart (splitNl src) j + line.length < src.length ∧
+          tok = ⟨⟨lineStart (splitNl src) j + line.length,
+                  lineStart (splitNl src) j + line.length + 1⟩, .newline 1⟩) ∨
+       ((leaderSpan isWs line).isEmpty = false ∧
+          ∃ t ∈ inner (slice line (leaderSpan isWs line)),
+            tok = t.shift (lineStart (splitNl src) j + (leaderSpan isWs line).start))) := by
+  rw [unitParse_exact] at h
+  cases h
+  rw [mem_unitOut]
+  simp only [mem_unitLineToks, Nat.zero_add]
+
+theorem spy_ok : InnerOK spy := by
+  intro c
+  unfold spy
+  split <;> simp
+
+/-- `// a` / `// ``` ` / `// b` / `// ``` ` / `// c`: prose, opening fence, code, closing fence, prose -/
+def fenceSrc : List Char :=
+  ['/', '/', ' ', 'a', '\n', '/', '/', ' ', '`', '`', '`', '\n', '/', '/', ' ', 'b', '\n',
+    '/', '/', ' ', '`', '`', '`', '\n', '/', '/', ' ', 'c']
+
+def fenceWs : Char → Bool := fun c => c == ' ' || c == '\n'
+
+example : (splitNl fenceSrc).map (isFenceLine fenceWs) = [false, true, false, true, false] := by decide
+example : fenceStates fenceWs false (splitNl fenceSrc) = [false, true, true, false, false] := by decide
+example : (List.range 5).map (lineStart (splitNl fenceSrc)) = [0, 5, 12, 17, 24] := by decide
+/-- non-vacuity of `unitParse_exact` / `unitParse_tokens_iff`: the five-line comment, evaluated. Lines 1
+(opening fence, chars 5..12) and 2 (code, chars 12..17) contribute nothing, not even their
+`Newline`; line 3 — the CLOSING fence — contributes a word over its three backticks (20..23) -/
+example : unitParse fenceWs fenceSrc spy =
+    .ok [⟨⟨3, 4⟩, .word⟩, ⟨⟨4, 5⟩, .newline 1⟩, ⟨⟨20, 23⟩, .word⟩, ⟨⟨23, 24⟩, .newline 1⟩,
+      ⟨⟨27, 28⟩, .word⟩] := by decide
+example : unitOut fenceWs fenceSrc.length spy 0 (splitNl fenceSrc) [false, true, true, false, false] =
+    [⟨⟨3, 4⟩, .word⟩, ⟨⟨4, 5⟩, .newline 1⟩, ⟨⟨20, 23⟩, .word⟩, ⟨⟨23, 24⟩, .newline 1⟩,
+      ⟨⟨27, 28⟩, .word⟩] := by decide
+
+/-- **Lines inside a code fence yield no tokens.** Let line `k` of the comment have its
+`in_code_fence` flag `true` (the opening fence line, or a line strictly between an opening fence and
+the next fence line). With an inner parser that keeps its tokens inside the chunk it is given
+(`InnerOK`), NO token returned by `Unit::parse` touches the stretch of the file occupied by line
+`k` and its line break, `[lineStart k, lineStart k + len_k + 1)`: every token ends at or before the
+line's first character or starts after its line break. -/
+theorem unitParse_fenced_lines_silent (isWs : Char → Bool) (src : List Char)
+    (inner : List Char → List Tok) (hin : InnerOK inner) (toks : List Tok)
+    (h : unitParse isWs src inner = .ok toks) (k : Nat) (line : List Char)
+    (hk : (splitNl src)[k]? = some line)
+    (hst : (fenceStates isWs false (splitNl src))[k]? = some true) :
+    ∀ tok ∈ toks, tok.span.stop ≤ lineStart (splitNl src) k ∨
+      lineStart (splitNl src) k + line.length + 1 ≤ tok.span.start := by
+  intro tok ht
+  rw [unitParse_exact] at h
+  cases h
+  obtain ⟨j, lj, hj, hsj, hm⟩ := (mem_unitOut isWs src.length inner tok _ _ 0).mp ht
+  have hb := unitLineToks_bounds hin isWs src.length _ lj tok hm
+  have hne : j ≠ k := by rintro rfl; rw [hst] at hsj; cases hsj
+  rcases Nat.lt_or_gt_of_ne hne with hlt | hgt
+  · have := lineStart_lt (splitNl src) j k lj hj hlt
+    left; omega
+  · have := lineStart_lt (splitNl src) k j line hk hgt
+    right; omega
+
+/-- non-vacuity of `unitParse_fenced_lines_silent`: the opening fence line (k = 1, chars 5..12) and the
+code line (k = 2, chars 12..17) of `fenceSrc` -/
+example : ∀ tok ∈ [(⟨⟨3, 4⟩, .word⟩ : Tok), ⟨⟨4, 5⟩, .newline 1⟩, ⟨⟨20, 23⟩, .word⟩, ⟨⟨23, 24⟩, .newline 1⟩,
+    ⟨⟨27, 28⟩, .word⟩], tok.span.stop ≤ 5 ∨ 5 + 6 + 1 ≤ tok.span.start :=
+  unitParse_fenced_lines_silent fenceWs fenceSrc spy spy_ok _ (by decide) 1 ['/', '/', ' ', '`', '`', '`']
+    (by decide) (by decide)
+example : ∀ tok ∈ [(⟨⟨3, 4⟩, .word⟩ : Tok), ⟨⟨4, 5⟩, .newline 1⟩, ⟨⟨20, 23⟩, .word⟩, ⟨⟨23, 24⟩, .newline 1⟩,
+    ⟨⟨27, 28⟩, .word⟩], tok.span.stop ≤ 12 ∨ 12 + 4 + 1 ≤ tok.span.start :=
+  unitParse_fenced_lines_silent fenceWs fenceSrc spy spy_ok _ (by decide) 2 ['/', '/', ' ', 'b']
+    (by decide) (by decide)
+/-- `InnerOK` is needed: an inner parser that reports a span outside its chunk puts a token from the
+prose line 0 over the opening fence line -/
+example : unitParse fenceWs fenceSrc (fun _ => [⟨⟨2, 6⟩, .word⟩]) =
+    .ok [⟨⟨5, 9⟩, .word⟩, ⟨⟨4, 5⟩, .newline 1⟩, ⟨⟨22, 26⟩, .word⟩, ⟨⟨23, 24⟩, .newline 1⟩,
+      ⟨⟨29, 33⟩, .word⟩] := by decide
+
+/-- **The closing fence line IS handed to the inner parser** (`Unit::parse` flips `in_code_fence`
+BEFORE testing it). While the flag is `true`, a fence line makes the loop emit, for that very line,
+the inner parser's tokens on the stripped line — a chunk that begins with the three backticks and
+is never blank — plus the line's `Newline`, and go on with the flag `false`. -/
+theorem unit_closing_fence_parsed (isWs : Char → Bool) (total : Nat) (inner : List Char → List Tok)
+    (trav : Nat) (line : List Char) (rest : List (List Char)) (hf : isFenceLine isWs line = true) :
+    (slice line (leaderSpan isWs line)).take 3 = ['`', '`', '`'] ∧
+    ∃ r, unitLoop isWs total inner (trav + line.length + 1) false rest = .ok r ∧
+      unitLoop isWs total inner trav true (line :: rest) =
+        .ok (((inner (slice line (leaderSpan isWs line))).map (·.shift (leaderSpan isWs line).start) ++
+          lineBreakTok total trav line).map (·.shift trav) ++ r) := by
+  obtain ⟨h1, h2⟩ := parsedLine_fence isWs inner line hf
+  refine ⟨h1, _, unitLoop_eq isWs total inner rest _ false, ?_⟩
+  rw [unitLoop_closing_fence isWs total inner trav line rest hf, unitLineToks, h2]
+
+/-- … whereas the OPENING fence line (flag `false` before it) and every non-fence line met while the
+flag is `true` are skipped entirely: the loop continues as if the line were not there, only
+`chars_traversed` advances. -/
+theorem unit_opening_fence_skipped (isWs : Char → Bool) (total : Nat) (inner : List Char → List Tok)
+    (trav : Nat) (line : List Char) (rest : List (List Char)) :
+    (isFenceLine isWs line = true →
+      unitLoop isWs total inner trav false (line :: rest) =
+        unitLoop isWs total inner (trav + line.length + 1) true rest) ∧
+    (isFenceLine isWs line = false →
+      unitLoop isWs total inner trav true (line :: rest) =
+        unitLoop isWs total inner (trav + line.length + 1) true rest) :=
+  ⟨unitLoop_opening_fence isWs total inner trav line rest,
+   unitLoop_inside_fence isWs total inner trav line rest⟩
+
+/-- the same at the level of `Unit::parse`: if line `k` is a fence line whose flag is `false` — a
+CLOSING fence — every token the inner parser produces for its stripped text (` ``` …`) is in the
+output, at the line's true offset. -/
+theorem unitParse_closing_fence_tokens (isWs : Char → Bool) (src : List Char)
+    (inner : List Char → List Tok) (toks : List Tok) (h : unitParse isWs src inner = .ok toks)
+    (k : Nat) (line : List Char) (hk : (splitNl src)[k]? = some line)
+    (hf : isFenceLine isWs line = true)
+    (hst : (fenceStates isWs false (splitNl src))[k]? = some false) :
+    (slice line (leaderSpan isWs line)).take 3 = ['`', '`', '`'] ∧
+    ∀ t ∈ inner (slice line (leaderSpan isWs line)),
+      t.shift (lineStart (splitNl src) k + (leaderSpan isWs line).start) ∈ toks :=
+  ⟨(parsedLine_fence isWs inner line hf).1, fun t ht =>
+    (unitParse_tokens_iff isWs src inner toks h _).mpr
+      ⟨k, line, hk, hst, Or.inr ⟨leaderSpan_fence_nonempty isWs line hf, t, ht, rfl⟩⟩⟩
+
+/-- non-vacuity of `unit_closing_fence_parsed`: inside a fence at offset 17 of a 28-character comment,
+the line `// ``` ` followed by `// c`: a word over the backticks (20..23) and the line's `Newline` -/
+example : unitLoop fenceWs 28 spy 17 true [['/', '/', ' ', '`', '`', '`'], ['/', '/', ' ', 'c']] =
+    .ok [⟨⟨20, 23⟩, .word⟩, ⟨⟨23, 24⟩, .newline 1⟩, ⟨⟨27, 28⟩, .word⟩] := by decide
+example : isFenceLine fenceWs ['/', '/', ' ', '`', '`', '`'] = true := by decide
+/-- non-vacuity of `unit_opening_fence_skipped`: the same line met with the flag `false` yields nothing,
+and neither does the code line after it -/
+example : unitLoop fenceWs 28 spy 5 false [['/', '/', ' ', '`', '`', '`'], ['/', '/', ' ', 'b']] = .ok [] := by
+  decide
+/-- non-vacuity of `unitParse_closing_fence_tokens` on `fenceSrc`, k = 3: the token over the closing
+fence's backticks is in the output, and the text under it is ` ``` ` -/
+example : (⟨⟨20, 23⟩, .word⟩ : Tok) ∈ [(⟨⟨3, 4⟩, .word⟩ : Tok), ⟨⟨4, 5⟩, .newline 1⟩, ⟨⟨20, 23⟩, .word⟩,
+    ⟨⟨23, 24⟩, .newline 1⟩, ⟨⟨27, 28⟩, .word⟩] :=
+  (unitParse_closing_fence_tokens fenceWs fenceSrc spy _ (by decide) 3 ['/', '/', ' ', '`', '`', '`']
+    (by decide) (by decide) (by decide)).2 ⟨⟨0, 3⟩, .word⟩ (by decide)
+example : slice fenceSrc ⟨20, 23⟩ = ['`', '`', '`'] ∧ slice fenceSrc ⟨8, 11⟩ = ['`', '`', '`'] := by decide
+
+/-- **Unfenced text is checked completely.** If no line of the comment is a fence line, every line
+is handed to the inner parser: for every line `j`, everything `Unit::parse` emits for a parsed
+line (`unitLineToks`: inner tokens at the true offset, then the `Newline`) is in the output; in
+particular every inner token of every non-blank stripped line. -/
+theorem unitParse_no_fence_complete (isWs : Char → Bool) (src : List Char)
+    (inner : List Char → List Tok) (toks : List Tok) (h : unitParse isWs src inner = .ok toks)
+    (hno : ∀ l ∈ splitNl src, isFenceLine isWs l = false) (j : Nat) (line : List Char)
+    (hj : (splitNl src)[j]? = some line) :
+    (∀ tok ∈ unitLineToks isWs src.length inner (lineStart (splitNl src) j) line, tok ∈ toks) ∧
+    ((leaderSpan isWs line).isEmpty = false → ∀ t ∈ inner (slice line (leaderSpan isWs line)),
+      t.shift (lineStart (splitNl src) j + (leaderSpan isWs line).start) ∈ toks) := by
+  have hlt : j < (splitNl src).length := by
+    rcases Nat.lt_or_ge j (splitNl src).length with h' | h'
+    · exact h'
+    · rw [List.getElem?_eq_none h'] at hj; cases hj
+  have hst : (fenceStates isWs false (splitNl src))[j]? = some false := by
+    rw [fenceStates_no_fence isWs _ false hno]; simp [hlt]
+  constructor
+  · intro tok ht
+    rw [unitParse_exact] at h
+    cases h
+    exact (mem_unitOut isWs src.length inner tok _ _ 0).mpr ⟨j, line, hj, hst, by simpa using ht⟩
+  · intro he t ht
+    exact (unitParse_tokens_iff isWs src inner toks h _).mpr ⟨j, line, hj, hst, Or.inr ⟨he, t, ht, rfl⟩⟩
+
+/-- non-vacuity of `unitParse_no_fence_complete`: `// é` / `  * 😀 x`, second line -/
+example : (⟨⟨9, 12⟩, .word⟩ : Tok) ∈ [(⟨⟨3, 4⟩, .word⟩ : Tok), ⟨⟨4, 5⟩, .newline 1⟩, ⟨⟨9, 12⟩, .word⟩] :=
+  (unitParse_no_fence_complete (fun c => c == ' ') ['/', '/', ' ', 'é', '\n', ' ', ' ', '*', ' ', '😀', ' ', 'x'] spy
+    _ (by decide) (by decide) 1 [' ', ' ', '*', ' ', '😀', ' ', 'x'] (by decide)).2 (by decide) ⟨⟨0, 3⟩, .word⟩
+    (by decide)
 
 end Harper.C04
